@@ -145,6 +145,13 @@ def run(ctx):
             ctx.obligation(ob_corr, same)
             if base is None:
                 base = (e0, im, inp, t0 + zone_offset_s(tz))
+                # origins that put the first instant of an interstorm interval, of a storm and of a rise at epoch 0 exactly
+                # (1970-01-01 00:00:00 UTC: the one instant whose number is falsy)
+                firsts = [iv[0] for iv in (im["interstorms"][:1] + [p_[0] for p_ in im["pairs"][:1]] + [p_[1] for p_ in im["pairs"][:1]])]
+                for e_first in firsts:
+                    if (t0 - e_first) % rec.dt == 0 and all(r_[0] != t0 - e_first for r_ in runs):
+                        runs.append((t0 - e_first, "UTC"))
+                        ctx.count("origins_putting_an_interval_boundary_at_epoch_zero")
                 ctx.sample({"record": rec.describe(), "s": s, "j": j, "origins": [r[0] for r in runs][:8], "zones": zones}, limit=2)
                 if not same:
                     ctx.corr_break(ob_corr, {"input": inp, "impl": im, "model": m})
